@@ -236,6 +236,33 @@ def st_case(draw):
     return {"t": t, "v": v, "layouts": layouts, "picks": picks}
 
 
+@st.composite
+def st_case_layout(draw):
+    """Focused cases: a model with a flattened (nested-group) layout and several *missing* faults at different crowns --
+    the arrangement where per-crown bookkeeping of the generated ALL-mode loader matters."""
+    n = draw(st.integers(3, 6))
+    names = draw(st.lists(st.sampled_from(tspec.FIELD_NAMES), min_size=n, max_size=n, unique=True))
+    kind = draw(st.sampled_from(["dataclass", "attrs", "namedtuple", "typeddict"]))
+    fields = [{"n": nm, "t": draw(st.sampled_from([["int"], ["str"], ["bool"], ["list", ["int"], "typing"]])), "d": None}
+              for nm in names]
+    groups = [["g1"], ["g2"], ["deep", "er"], ["g3"]]
+    nest = {}
+    for nm in names:
+        if draw(st.integers(0, 3)) != 0:
+            nest[nm] = draw(st.sampled_from(groups))
+    lay = {"how": draw(st.sampled_from(["nested", "nested", "nested+forbid"])), "nest": nest}
+    if lay["how"] == "nested+forbid":
+        lay["how"] = "nested"
+    t = ["model", {"name": "M0", "kind": kind, "fields": fields}]
+    if draw(st.booleans()):
+        t = ["list", t, "typing"]
+    v = draw(tspec.st_value(t, min_size=1))
+    npicks = draw(st.sampled_from([2, 2, 3, 4]))
+    return {"t": t, "v": v, "layouts": {"M0": lay}, "picks": [draw(st.integers(0, 40)) for _ in range(npicks)],
+            "prefer": draw(st.sampled_from([["missing_required", "missing_group"], ["missing_required", "missing_group"],
+                                            ["missing_required", "missing_group", "wrong_type", "wrong_container"]]))}
+
+
 def follow(root, trail):
     cur = root
     for el in trail:
@@ -264,6 +291,9 @@ def check_case(ctx: runner.Ctx, case):  # noqa: C901, PLR0912, PLR0915
     # deepest sites first: generated picks are biased towards small numbers, and a fault near the root hides
     # everything below it (the interesting cases are several deep faults at once)
     sites.sort(key=lambda s: -len(s.at))
+    if case.get("prefer"):
+        preferred = [x for x in sites if x.kind in case["prefer"]]
+        sites = preferred or sites
     chosen = choose_antichain(sites, case["picks"])
     if not chosen:
         ctx.count("no_fault_site")
@@ -356,7 +386,9 @@ def check_case(ctx: runner.Ctx, case):  # noqa: C901, PLR0912, PLR0915
 
 
 def explore(ctx: runner.Ctx):
-    ctx.given(st_case(), lambda c: check_case(ctx, c), ctx.budget(3500, 200000))
+    n = ctx.budget(3500, 200000)
+    ctx.given(st_case(), lambda c: check_case(ctx, c), int(n * 0.75))
+    ctx.given(st_case_layout(), lambda c: check_case(ctx, c), max(1, int(n * 0.25)), seed_offset=1)
 
 
 RULE = ("cases = (type spec depth<=4 without non-Optional unions, canonical value, model layouts, fault picks); a non-empty "
@@ -365,7 +397,7 @@ RULE = ("cases = (type spec depth<=4 without non-Optional unions, canonical valu
 
 if __name__ == "__main__":
     raise SystemExit(runner.main(
-        PROP, explore=explore, check_case=check_case, strategy=st_case(), rule=RULE,
+        PROP, explore=explore, check_case=check_case, strategy=st.one_of(st_case(), st_case_layout()), rule=RULE,
         assumptions=["strict_coercion=True (a planted wrong-typed leaf must be unacceptable)",
                      "a union (Optional) is one leaf: faults below it are expected at the union's own trail",
                      "for tuple length errors input_value may be the tuple() conversion of the sub-value (pinned by the suite)"],
